@@ -44,7 +44,8 @@ def gen_node(ch, nm, depth, max_depth, fan, rich, parent_has_rest=False):
     if rich and ch.flip(0.3):
         node["help"] = ch.choice(["Run {script_name} %s to do things." % name, "Plain help text without placeholder.",
                                   # help texts are free text: JSON examples, set notation, format strings
-                                  'Pass JSON such as {"key": 1} or an empty object {}.', "Use {name} and {0} as placeholders of your own.", "A lone brace { or } is text."])
+                                  'Pass JSON such as {"key": 1} or an empty object {}.', "Use {name} and {0} as placeholders of your own.", "A lone brace { or } is text.",
+                                  "Attribute-like {command_name.upper} and index-like {script_name[0]} {script_name[x]} spellings are text too."])
     leaf = depth >= max_depth or kind in ("default", "anon") or ch.flip(0.35)
     if not leaf:
         for _ in range(ch.randint(1, fan)):
